@@ -6,7 +6,8 @@ S: product-machine BFS on the real fortran_file_source (which feeds fortran_clea
    cleaner state, category so far, has-lines) read from the two live generator frames x the
    reference scanner state (open literal quote, continuation pending).
 E: every text over SIGMA + newline up to a length bound through FileParser.parse_file on .f90.
-C: the C01 universe re-run on .F90 files ("conditionals select lines exactly as in C files"),
+C: the C01 universe re-run on .F90 files ("conditionals select lines exactly as in C files"), once with
+   one statement per code line and once with all code lines forming a single &-continued statement,
    and a .f90 TU that includes a .h / .inc header (language inherited).
 Oracle: ref/fscan.py (free-form rules) and ref/cond.py (validated against gcc in C01).
 """
@@ -280,10 +281,28 @@ def explore_s(maxlen, depth_cap=10):
 
 
 # ------------------------------------------------------------------ C: conditionals in Fortran files
+def render_continued(program):
+    """All code lines form ONE &-continued statement that the directives cut into pieces: a piece must still be
+    attributed by the group its physical line lies in, not by where the statement ends."""
+    code = [i for i, ev in enumerate(program) if ev[0] == "code"]
+    out = []
+    for i, ev in enumerate(program):
+        if ev[0] != "code":
+            out.append(cond.render(ev, i + 1))
+        elif i == code[0]:
+            out.append(f"      x = {i + 1} + &" if len(code) > 1 else f"      x = {i + 1}")
+        elif i == code[-1]:
+            out.append(f"      {i + 1}")
+        else:
+            out.append(f"      {i + 1} + &")
+    return out
+
+
 def _cond_work(progs):
     d = env.fresh_dir("c17c")
     judged = 0
     fails = []
+    cont_fails = []
     gjobs = []
     for dirs in progs:
         program = cond.interleave([tuple(x) for x in dirs])
@@ -293,12 +312,15 @@ def _cond_work(progs):
         if not good:
             continue
         got = c01.impl_attr(program, good, ".F90", d)
+        got2 = c01.impl_attr(program, good, ".F90", d, render=render_continued)
         for ci, (c, e) in enumerate(zip(c01.CONFIGS, exps)):
             if e is None:
                 continue
-            judged += 1
+            judged += 2
             if got[c[0]] != e:
                 fails.append((program, ci))
+            elif got2[c[0]] != e:
+                cont_fails.append((program, ci, sorted(e), got2[c[0]] if isinstance(got2[c[0]], tuple) else sorted(got2[c[0]])))
     out = []
     seen = set()
     for program, ci in fails[:10]:
@@ -307,9 +329,12 @@ def _cond_work(progs):
             seen.add(f.key())
             f["kind"] = "fortran-" + f["kind"]
             out.append(f)
+    for program, ci, e, g in sorted(cont_fails, key=lambda x: len(x[0]))[:3]:
+        out.append(Failure("fortran-continued-statement", {"lines": render_continued(program), "defines": c01.CONFIGS[ci][1], "config": c01.CONFIGS[ci][0]},
+                           expected=e, observed=g))
     from ..core import gcc as G
     gst = c01._gcc_validate(gjobs, tool="gfortran") if G.GFORTRAN else (0, 0, [])
-    return judged, len(fails), out, gst
+    return judged, len(fails) + len(cont_fails), out, gst
 
 
 def _inherit(_):
